@@ -6,6 +6,7 @@ package main
 
 import (
 	"bufio"
+	"bytes"
 	"flag"
 	"fmt"
 	"io"
@@ -66,6 +67,41 @@ func registered() map[string]bool {
 func onlyModelled(b []byte, modelled, reg map[string]bool) bool {
 	if len(b) < 8 {
 		return true
+	}
+	// conservative: the name of a registered, unmodelled type anywhere in the bytes (the scanner does not see
+	// a child whose size field no longer tiles, the decoder still dispatches on its name)
+	var textual [][2]int // bodies of boxes that carry four-character codes as data
+	if nodes, _ := bx.Scan(b, 0, len(b), 0); true {
+		for _, n := range nodes {
+			n.Walk(func(m *bx.Node) {
+				switch m.Type {
+				case "hdlr", "ftyp", "styp", "frma", "schm":
+					textual = append(textual, [2]int{m.Off + 8, m.Off + m.Size})
+				}
+			})
+		}
+	}
+	for t := range reg {
+		if modelled[t] {
+			continue
+		}
+		for from := 0; ; {
+			i := bytes.Index(b[from:], []byte(t))
+			if i < 0 {
+				break
+			}
+			i += from
+			inText := false
+			for _, r := range textual {
+				if i >= r[0] && i < r[1] {
+					inText = true
+				}
+			}
+			if !inText {
+				return false
+			}
+			from = i + 1
+		}
 	}
 	if t := string(b[4:8]); reg[t] && !modelled[t] {
 		return false
@@ -389,11 +425,17 @@ func worker(dcPath, mode string, kinds []string) {
 				continue
 			}
 			seen[k] = true
-			mflag := "M0"
-			if len(modelled) > 0 && onlyModelled(in, modelled, bx.Registered) {
-				mflag = "M1"
+			// what the check may ask the model about: the whole input when it is made of modelled types only,
+			// else the failing box alone when that one is
+			mflag, q := "M0", "-"
+			if len(modelled) > 0 && strings.HasPrefix(f.Class, "mutant-not-reproduced:") {
+				if onlyModelled(in, modelled, bx.Registered) && len(in) <= 20000 {
+					mflag, q = "M1", hx.Hex(in)
+				} else if fb := bx.FailBox[f.Site+"/"+f.Class]; len(fb) >= 8 && len(fb) <= 20000 && onlyModelled(fb, modelled, bx.Registered) {
+					mflag, q = "M1", hx.Hex(fb)
+				}
 			}
-			fmt.Fprintf(out, "FAIL\t%s\t%s\t%s\t%s\t%s\n", f.Site, f.Class, f.Witness, strings.ReplaceAll(f.Desc, "\n", " "), mflag)
+			fmt.Fprintf(out, "FAIL\t%s\t%s\t%s\t%s\t%s\t%s\n", f.Site, f.Class, f.Witness, strings.ReplaceAll(f.Desc, "\n", " "), mflag, q)
 		}
 		fmt.Fprintf(out, "DONE\t%s\t%d\t%d\n", p[0], evals, acc)
 		out.Flush()
